@@ -1777,6 +1777,9 @@ TARGETS = [
            state=[("nf_cnf_dict", "es_nf_cnf_dict", ("dict", SCNF))],
            locals_={"vMin": PART_KEY, "fMin": PART_KEY, "xMins": PART_KEY}),
     ]),
+    dict(out="SrcOpt", file="inference/optimizer.py", requires=[], funcs=[
+        Fn("remove_supersets", "py_remove_supersets", [("lst_of_sets", ("list", ("set", "int")))], locals_={"filtered": ("list", ("set", "int"))}),
+    ]),
     dict(out="SrcP", file="inference/p_entailment.py", requires=["SrcCond", "SrcCons"], funcs=[
         Fn("_inference", "py_PEntailment_inference", [("query", "cond"), ("weakly", "bool"), ("deadline", "deadline")],
            cls="PEntailment", ret="bool", state=[("belief_base", "es_belief_base", "bb"), ("smt_solver", "es_smt_solver", "str")]),
